@@ -51,6 +51,17 @@ type phase struct {
 	// load whose range crosses a multiple of 64 is split by the scalar unit
 	// into several memory requests. Empty = N one-dword loads (old form).
 	Loads []sload `json:"loads,omitempty"`
+	// manyload: N (1..40) FLAT loads to distinct cache lines and S (0..16)
+	// scalar loads in flight, then s_waitcnt vmcnt(VM) lgkmcnt(LG) with exactly
+	// these field values (VM up to 15 on GCN3, up to 63 with CDNA3 decoding),
+	// the results of the loads listed in Cons are folded (each must be
+	// guaranteed by the wait: index <= N-1-VM), then s_waitcnt 0/0 and the
+	// results listed in Rest and all scalar results are folded.
+	VM   int   `json:"vmcnt,omitempty"`
+	LG   int   `json:"lgkmcnt,omitempty"`
+	S    int   `json:"scalar_loads,omitempty"`
+	Cons []int `json:"consume_after_wait,omitempty"`
+	Rest []int `json:"consume_at_end,omitempty"`
 }
 
 type sload struct {
@@ -79,6 +90,9 @@ var sloadCap = [3]int{8, 4, 4}
 const tSliceDwords = 64 // every wavefront owns 256 bytes of T
 
 type kernelSpec struct {
+	// Arch: "" / "gcn3", or "cdna3" (CDNA3 decoding: 6-bit vmcnt, FLAT with
+	// SADDR=off; run on a compute unit built as the MI300A platform builds it)
+	Arch   string  `json:"arch,omitempty"`
 	W      int     `json:"wavefronts_per_group"`
 	NWG    int     `json:"groups"`
 	Mul    uint32  `json:"mul"`
@@ -94,7 +108,41 @@ func (k kernelSpec) wgSize() int { return 64 * k.W }
 func (k kernelSpec) total() int  { return k.NWG * k.wgSize() }
 
 // sizes (in dwords) of the four arrays
-func (k kernelSpec) lenA() int { return 4 * k.total() }
+func (k kernelSpec) lenA() int {
+	n := 4
+	for _, p := range k.Phases {
+		if p.Kind == "manyload" && p.N > n {
+			n = p.N
+		}
+	}
+	return n * k.total()
+}
+
+func (k kernelSpec) cdna3() bool { return k.Arch == "cdna3" }
+
+// noWaitVM is the all-ones value of the vmcnt field: "do not wait".
+func (k kernelSpec) noWaitVM() int {
+	if k.cdna3() {
+		return 63
+	}
+	return 15
+}
+
+func (k kernelSpec) archName() string {
+	if k.cdna3() {
+		return "cdna3"
+	}
+	return "gcn3"
+}
+
+func (k kernelSpec) hasManyLoad() bool {
+	for _, p := range k.Phases {
+		if p.Kind == "manyload" {
+			return true
+		}
+	}
+	return false
+}
 func (k kernelSpec) lenB() int { return k.total() }
 func (k kernelSpec) lenC() int {
 	n := 0
@@ -138,6 +186,7 @@ type builtKernel struct {
 func op(f g.Format, name string) int { return g.MustOpcode(g.GCN3, f, name) }
 
 type asm struct {
+	cdna3 bool
 	p     *g.Program
 	texts []string
 	wait  map[int][2]int // instruction index -> vmcnt, lgkmcnt
@@ -149,9 +198,47 @@ func (a *asm) add(text string, d g.Desc) {
 	a.texts = append(a.texts, text)
 }
 
+// waitcnt: vm == 15 means "no wait on vmcnt" (the phases written for GCN3 say
+// it that way); with CDNA3 decoding that is field value 63.
 func (a *asm) waitcnt(vm, lgkm int) {
+	if a.cdna3 && vm == 15 {
+		vm = 63
+	}
+	a.waitcntRaw(vm, lgkm)
+}
+
+// waitcntRaw emits s_waitcnt with exactly these field values. SIMM16: vmcnt
+// [3:0] (CDNA3: and [15:14]), expcnt [6:4] = 7, lgkmcnt [11:8]. The encoding
+// is the harness' own; the monitor takes the requested counts from here.
+func (a *asm) waitcntRaw(vm, lgkm int) {
+	max := 15
+	if a.cdna3 {
+		max = 63
+	}
+	if vm < 0 || vm > max || lgkm < 0 || lgkm > 15 {
+		panic(fmt.Sprintf("s_waitcnt vmcnt(%d) lgkmcnt(%d) cannot be encoded", vm, lgkm))
+	}
 	a.wait[len(a.texts)] = [2]int{vm, lgkm}
-	a.add(fmt.Sprintf("s_waitcnt vmcnt(%d) lgkmcnt(%d)", vm, lgkm), g.Waitcnt(vm, 7, lgkm))
+	simm := uint16(vm&0xf | 7<<4 | lgkm<<8 | (vm>>4)<<14)
+	a.add(fmt.Sprintf("s_waitcnt vmcnt(%d) lgkmcnt(%d)", vm, lgkm), g.MkSOPP(g.OpSWaitcnt, simm))
+}
+
+// flatLoad / flatStore: with CDNA3 decoding a 64-bit VGPR address needs
+// SEG=flat and SADDR=off (0x7f); the GCN3 layout has zeros there.
+func (a *asm) flatLoad(text string, dst g.Operand, addr g.Operand) {
+	if a.cdna3 {
+		a.add(text, g.Desc{Arch: g.CDNA3, Format: g.FLAT, Seg: g.SegFlat, Opcode: g.OpFlatLoadDword, Dst: dst, Addr: addr, SAddr: g.Off})
+		return
+	}
+	a.add(text, g.FlatLoad(g.OpFlatLoadDword, dst, addr))
+}
+
+func (a *asm) flatStore(text string, addr g.Operand, data g.Operand) {
+	if a.cdna3 {
+		a.add(text, g.Desc{Arch: g.CDNA3, Format: g.FLAT, Seg: g.SegFlat, Opcode: g.OpFlatStoreDword, Addr: addr, Data: data, SAddr: g.Off})
+		return
+	}
+	a.add(text, g.FlatStore(g.OpFlatStoreDword, addr, data))
 }
 
 func (a *asm) label() string {
@@ -222,11 +309,15 @@ func (a *asm) neighbour(delta int) {
 
 func (a *asm) storeOut() {
 	a.addr(3, sB, vGid, "&B[gid]")
-	a.add("flat_store_dword v[3:4], acc", g.FlatStore(g.OpFlatStoreDword, g.VRange(3, 2), vAcc))
+	a.flatStore("flat_store_dword v[3:4], acc", g.VRange(3, 2), vAcc)
 }
 
 func buildKernel(k kernelSpec) (*builtKernel, error) {
-	a := &asm{p: g.NewProgram(g.GCN3), wait: map[int][2]int{}}
+	arch := g.GCN3
+	if k.cdna3() {
+		arch = g.CDNA3
+	}
+	a := &asm{cdna3: k.cdna3(), p: g.NewProgram(arch), wait: map[int][2]int{}}
 	wgs := k.wgSize()
 	tot := k.total()
 
@@ -262,8 +353,7 @@ func buildKernel(k kernelSpec) (*builtKernel, error) {
 				a.addr(10+2*j, sA, vIdx, fmt.Sprintf("&A[gid+%d*total]", j))
 			}
 			for j := 0; j < ph.N; j++ {
-				a.add(fmt.Sprintf("flat_load_dword v%d, v[%d:%d]", 18+j, 10+2*j, 11+2*j),
-					g.FlatLoad(g.OpFlatLoadDword, g.V(18+j), g.VRange(10+2*j, 2)))
+				a.flatLoad(fmt.Sprintf("flat_load_dword v%d, v[%d:%d]", 18+j, 10+2*j, 11+2*j), g.V(18+j), g.VRange(10+2*j, 2))
 			}
 			a.waitcnt(ph.K, 15)
 			for j := 0; j < ph.N-ph.K; j++ {
@@ -274,6 +364,57 @@ func buildKernel(k kernelSpec) (*builtKernel, error) {
 				for j := ph.N - ph.K; j < ph.N; j++ {
 					a.fold(g.V(18+j), fmt.Sprintf("load %d", j))
 				}
+			}
+		case "manyload":
+			if ph.N < 1 || ph.N > 40 || ph.S < 0 || ph.S > 16 || ph.VM < 0 || ph.VM > k.noWaitVM() || ph.LG < 0 || ph.LG > 15 {
+				return nil, fmt.Errorf("phase %d: bad manyload", pi)
+			}
+			for _, c := range ph.Cons {
+				// loads return in order: vmcnt(VM) guarantees the first N-VM
+				if ph.VM == k.noWaitVM() || c < 0 || c > ph.N-1-ph.VM {
+					return nil, fmt.Errorf("phase %d: consumer %d is not covered by vmcnt(%d)", pi, c, ph.VM)
+				}
+			}
+			for _, c := range ph.Rest {
+				if c < 0 || c >= ph.N {
+					return nil, fmt.Errorf("phase %d: bad rest index %d", pi, c)
+				}
+			}
+			aReg := func(j int) int { return 24 + 2*j } // address pairs v24..v103
+			dReg := func(j int) int { return 104 + j }  // results v104..v143
+			sReg := func(i int) int { return 44 + i }   // scalar results s44..s59
+			for j := 0; j < ph.N; j++ {
+				a.add(fmt.Sprintf("v_add_u32 idx, vcc, %d, gid", j*tot), g.MkVOP2(op(g.VOP2, "v_add_u32"), vIdx, g.Lit(uint32(j*tot)), vGid))
+				a.addr(aReg(j), sA, vIdx, fmt.Sprintf("&A[gid+%d*total]", j))
+			}
+			for _, c := range append(append([]int(nil), ph.Cons...), ph.Rest...) {
+				a.add(fmt.Sprintf("v_mov_b32 v%d, poison", dReg(c)), g.MkVOP1(op(g.VOP1, "v_mov_b32"), g.V(dReg(c)), g.Lit(0xbad00000|uint32(pi)<<8|uint32(c))))
+			}
+			if ph.S > 0 {
+				a.add("s_lshl_b32 t, gwave, 8", g.MkSOP2(op(g.SOP2, "s_lshl_b32"), sTmp, sGWave, g.Imm(8)))
+				for i := 0; i < ph.S; i++ {
+					a.add(fmt.Sprintf("s_mov_b32 s%d, poison", sReg(i)), g.MkSOP1(op(g.SOP1, "s_mov_b32"), g.S(sReg(i)), g.Lit(0xdeaf0000|uint32(pi)<<8|uint32(i))))
+				}
+			}
+			for j := 0; j < ph.N; j++ {
+				a.flatLoad(fmt.Sprintf("flat_load_dword v%d, v[%d:%d] ; load %d of %d in flight", dReg(j), aReg(j), aReg(j)+1, j, ph.N), g.V(dReg(j)), g.VRange(aReg(j), 2))
+			}
+			for i := 0; i < ph.S; i++ {
+				// one dword each, 16 bytes apart inside the wavefront's slice of T
+				a.add(fmt.Sprintf("s_add_u32 t2, t, %d", 16*i), g.MkSOP2(op(g.SOP2, "s_add_u32"), sTmp2, sTmp, imm(16*i)))
+				a.add(fmt.Sprintf("s_load_dword s%d, s[10:11], t2 ; scalar load %d of %d in flight", sReg(i), i, ph.S),
+					g.SMEMLoadSGPR(g.OpSLoadDword, g.S(sReg(i)), sT, sTmp2))
+			}
+			a.waitcntRaw(ph.VM, ph.LG)
+			for _, c := range ph.Cons {
+				a.fold(g.V(dReg(c)), fmt.Sprintf("load %d of %d (complete after vmcnt(%d))", c, ph.N, ph.VM))
+			}
+			a.waitcntRaw(0, 0)
+			for _, c := range ph.Rest {
+				a.fold(g.V(dReg(c)), fmt.Sprintf("load %d of %d", c, ph.N))
+			}
+			for i := 0; i < ph.S; i++ {
+				a.fold(g.S(sReg(i)), fmt.Sprintf("scalar load %d", i))
 			}
 		case "sload":
 			loads := ph.sloads()
@@ -369,7 +510,7 @@ func buildKernel(k kernelSpec) (*builtKernel, error) {
 				// my slot: C[region + gid]
 				a.add(fmt.Sprintf("v_add_u32 idx, vcc, %d, gid", region), g.MkVOP2(op(g.VOP2, "v_add_u32"), vIdx, g.Lit(uint32(region)), vGid))
 				a.addr(3, sC, vIdx, "&C[region+gid]")
-				a.add("flat_store_dword v[3:4], acc", g.FlatStore(g.OpFlatStoreDword, g.VRange(3, 2), vAcc))
+				a.flatStore("flat_store_dword v[3:4], acc", g.VRange(3, 2), vAcc)
 				a.waitcnt(0, 15)
 				a.add("s_barrier", g.Barrier())
 				// neighbour slot: C[region + base + nb/4]
@@ -377,7 +518,7 @@ func buildKernel(k kernelSpec) (*builtKernel, error) {
 				a.add("v_add_u32 idx, vcc, base, idx", g.MkVOP2(op(g.VOP2, "v_add_u32"), vIdx, sBase, vIdx))
 				a.add(fmt.Sprintf("v_add_u32 idx, vcc, %d, idx", region), g.MkVOP2(op(g.VOP2, "v_add_u32"), vIdx, g.Lit(uint32(region)), vIdx))
 				a.addr(3, sC, vIdx, "&C[region+base+neighbour]")
-				a.add("flat_load_dword x, v[3:4]", g.FlatLoad(g.OpFlatLoadDword, vX, g.VRange(3, 2)))
+				a.flatLoad("flat_load_dword x, v[3:4]", vX, g.VRange(3, 2))
 				a.waitcnt(0, 15)
 				a.fold(vX, "value stored by the neighbour before the barrier")
 			}
@@ -425,6 +566,10 @@ func buildKernel(k kernelSpec) (*builtKernel, error) {
 		WFSgprCount:                 40,
 		WIVgprCount:                 24,
 		GroupSegmentByteSize:        uint32(k.ldsBytes()),
+	}
+	if k.hasManyLoad() {
+		meta.WFSgprCount, meta.WIVgprCount = 64, 144
+		meta.ComputePgmRsrc1 = uint32((144+3)/4-1) | uint32((64+7)/8-1)<<6
 	}
 	bk.CO = &insts.KernelCodeObject{KernelCodeObjectMeta: meta, Data: code, Version: insts.CodeObjectV3}
 	return bk, nil
@@ -502,6 +647,18 @@ func hostModel(k kernelSpec, d kernelData) hostResult {
 				eachLive(func(w, l int) {
 					for j := 0; j < ph.N; j++ {
 						acc[l] = acc[l]*k.Mul + d.A[base+l+j*tot]
+					}
+				})
+			case "manyload":
+				eachLive(func(w, l int) {
+					for _, c := range ph.Cons {
+						acc[l] = acc[l]*k.Mul + d.A[base+l+c*tot]
+					}
+					for _, c := range ph.Rest {
+						acc[l] = acc[l]*k.Mul + d.A[base+l+c*tot]
+					}
+					for i := 0; i < ph.S; i++ {
+						acc[l] = acc[l]*k.Mul + d.T[tSliceDwords*(wg*k.W+w)+4*i]
 					}
 				})
 			case "sload":
